@@ -40,7 +40,7 @@ ASSUMPTIONS = [
 ]
 
 
-EXPECTED_PROBES = ['integer_percentage', 'negative_identifiers', 'file_of_several_hundred_kib', 'binary_file_replaced_at_same_path', 'split_input_not_plain_float64_c_order', 'caller_overwrote_split_outputs', 'all_three_formats_compared', 'empty_first_set', 'empty_second_set', 'float_and_exact_floor_differ', 'gap_labels_rejected', 'ids_beyond_float32_exact_range', 'ids_differ_from_row_numbers', 'pct_times_n_is_an_integer', 'single_sample_file_loaded', 'split_reissued_after_prng_perturbation', 'three_or_more_classes']
+EXPECTED_PROBES = ['infinite_feature_values', 'integer_percentage', 'negative_identifiers', 'file_of_several_hundred_kib', 'binary_file_replaced_at_same_path', 'split_input_not_plain_float64_c_order', 'caller_overwrote_split_outputs', 'all_three_formats_compared', 'empty_first_set', 'empty_second_set', 'float_and_exact_floor_differ', 'gap_labels_rejected', 'ids_beyond_float32_exact_range', 'ids_differ_from_row_numbers', 'pct_times_n_is_an_integer', 'single_sample_file_loaded', 'split_reissued_after_prng_perturbation', 'three_or_more_classes']
 
 SLOW_ARMS = ("big",)
 
@@ -77,6 +77,10 @@ def gen_case(rng, arm, tier, k=0):
     if style == "unique":
         for i in range(n):
             X[i][0] = float(i) + 0.5
+    if rng.random() < 0.08:
+        # +inf / -inf are legal float32 feature values
+        for _ in range(rng.randint(1, 3)):
+            X[rng.randrange(n)][rng.randrange(d)] = rng.choice((float("inf"), float("-inf")))
     Y = list(range(K)) + [rng.randrange(K) for _ in range(n - K)]
     rng.shuffle(Y)
     r = rng.random()
@@ -337,6 +341,8 @@ def run_case(case):
                     bump(out.probes, "ids_beyond_float32_exact_range")
                 if min(fids) < 0:
                     bump(out.probes, "negative_identifiers")
+                if not np.isfinite(fX).all():
+                    bump(out.probes, "infinite_feature_values")
                 if len(fX) > 5000:
                     bump(out.probes, "file_of_several_hundred_kib")
                 if K >= 3:
